@@ -31,6 +31,10 @@
                                               Lib (the std preamble that tree() appends to every user module) and the
                                               older definition is in a File, the error is raised at the older (user)
                                               span and the import becomes the help note (/repo 6e4bbe6).
+   the `Name collision` arm of a plain `use`  likewise (oracle only, planter duplicate-global-vs-std with the names set,
+                                              dict, list, math): a `use` line of the std preamble colliding with a user
+                                              definition is reported at the user's definition (/repo 2646957); for two
+                                              user-written lines the error stays at the `use` statement (Resolve/ErrorSites.v).
    extract_namespaces, file_from_namespace,   Diag/FileIds.v `namespace_to_file`: module.file_id -> path, reversed;
    span_file (resolver, type checker),        every CompileError/TypeError takes its file from span.file_id through
    error!, resolution_error!, type_error!     that map and its line from the span passed to the macro.
